@@ -676,6 +676,54 @@ fn run_utf8_runs(ctx: &mut Ctx, rep: &mut Report, ck: &mut Checker, base: &mut u
     }
 }
 
+/// Case flips: every ASCII letter of every base file with its case flipped (keywords, tags and
+/// symbols that parsers may match case-insensitively but dispatch on case-sensitively).
+fn run_case_flips(ctx: &mut Ctx, rep: &mut Report, ck: &mut Checker, base: &mut u64, bases: &[(usize, Base)]) {
+    rep.space(
+        "case_flips",
+        "small valid base files x EVERY position holding an ASCII letter x that letter with its case flipped (single flips), plus every maximal run of letters flipped as a whole and with only its first letter flipped; \
+         x chunkings {whole, 1-byte chunks, one cut at the fault}; same oracle as short_strings",
+    );
+    for (ri, b) in bases {
+        let data = &b.bytes;
+        let idx = *base;
+        *base += 1;
+        if !ctx.mine(idx) {
+            continue;
+        }
+        watch::beat(17, *ri as u64, 0, 0);
+        for p in 0..data.len() {
+            if data[p].is_ascii_alphabetic() {
+                let mut v = data.clone();
+                v[p] ^= 0x20;
+                let origin = Origin { base: b.name.clone(), fault: "case-flip", detail: format!("byte {} {:?} -> {:?}", p, data[p] as char, v[p] as char) };
+                ck.check(rep, b.fmt, b.alpha, &v, p, true, &origin);
+            }
+        }
+        // whole words
+        let mut p = 0;
+        while p < data.len() {
+            if data[p].is_ascii_alphabetic() {
+                let mut e = p;
+                while e < data.len() && data[e].is_ascii_alphabetic() {
+                    e += 1;
+                }
+                if e - p >= 2 {
+                    let mut v = data.clone();
+                    for x in v[p..e].iter_mut() {
+                        *x ^= 0x20;
+                    }
+                    let origin = Origin { base: b.name.clone(), fault: "case-flip-word", detail: format!("bytes {}..{}", p, e) };
+                    ck.check(rep, b.fmt, b.alpha, &v, p, true, &origin);
+                }
+                p = e;
+            } else {
+                p += 1;
+            }
+        }
+    }
+}
+
 fn run_pairs(ctx: &mut Ctx, rep: &mut Report, ck: &mut Checker, base: &mut u64, bases: &[(usize, Base)]) {
     rep.space(
         "two_faults",
@@ -755,6 +803,9 @@ pub fn run(ctx: &mut Ctx, rep: &mut Report) {
             rep.sample_space(2, || json!({"base": b.name, "len": b.bytes.len(), "text": lossy(&b.bytes)}));
         }
         run_mutations(ctx, rep, &mut ck, &mut base, &bases, !quick, "mutations");
+    }
+    if !ctx.capped && ctx.wants("case_flips") {
+        run_case_flips(ctx, rep, &mut ck, &mut base, &bases);
     }
     if !ctx.capped && ctx.wants("utf8_runs") {
         run_utf8_runs(ctx, rep, &mut ck, &mut base, &bases);
